@@ -4,6 +4,8 @@ import (
 	"encoding/json"
 	"fmt"
 	"os"
+	"path/filepath"
+	"runtime"
 	"sort"
 	"strconv"
 	"strings"
@@ -129,7 +131,19 @@ func sigOfPanic(m string) string {
 	return "harness"
 }
 
-// Explore runs the deviation-bounded DFS for every bound of cfg.Bounds.
+var keepTraceEnv = os.Getenv("MC_KEEPTRACE")
+var lastG int
+
+func sanitize(s string) string {
+	b := []byte(s)
+	for i, c := range b {
+		if !(c >= 'a' && c <= 'z' || c >= 'A' && c <= 'Z' || c >= '0' && c <= '9' || c == '-') {
+			b[i] = '_'
+		}
+	}
+	return string(b)
+}
+
 // FairDeadline gives scenario i of n its share of what is left until end: (end-now)/(n-i) from
 // now. Scenarios that finish early leave their unused share to the later ones; when the budget is
 // too small every scenario is still explored to some depth instead of only the first ones.
@@ -144,6 +158,7 @@ func FairDeadline(end time.Time, i, n int) time.Time {
 	return time.Now().Add(left / time.Duration(n-i))
 }
 
+// Explore runs the deviation-bounded DFS for every bound of cfg.Bounds.
 func Explore(cfg Config) (Stats, []Violation) {
 	if cfg.ShardN <= 0 {
 		cfg.ShardN = 1
@@ -208,8 +223,23 @@ func Explore(cfg Config) (Stats, []Violation) {
 			if it.level >= 2 {
 				// whole subtrees below level 2 belong to one shard; decided when the level-2 node is popped
 			}
-			sc, out := runScenario(&cfg, it.prefix, false)
+			if keepTraceEnv != "" {
+				if g := runtime.NumGoroutine(); g != lastG {
+					f, _ := os.OpenFile(filepath.Join(keepTraceEnv, "mc-goroutines.txt"), os.O_APPEND|os.O_CREATE|os.O_WRONLY, 0o644)
+					buf := make([]byte, 1<<16)
+					buf = buf[:runtime.Stack(buf, true)]
+					fmt.Fprintf(f, "%s execs=%d goroutines %d -> %d\n%s\n\n", cfg.Name, execs, lastG, g, buf)
+					f.Close()
+					lastG = g
+				}
+			}
+			sc, out := runScenario(&cfg, it.prefix, keepTraceEnv != "")
 			if out.End == "divergence" {
+				if keepTraceEnv != "" {
+					f, _ := os.OpenFile(filepath.Join(keepTraceEnv, "mc-divergences.txt"), os.O_APPEND|os.O_CREATE|os.O_WRONLY, 0o644)
+					fmt.Fprintf(f, "%s prefix=%d: %s\n%s\n\n", cfg.Name, len(it.prefix), out.PanicMsg, strings.Join(renderTrace(out), ";"))
+					f.Close()
+				}
 				st.Divergences++
 				cleanup(sc)
 				continue
@@ -236,6 +266,11 @@ func Explore(cfg Config) (Stats, []Violation) {
 							if p.C != 0 {
 								last = i
 							}
+						}
+						if keepTraceEnv != "" {
+							// development aid (MC_KEEPTRACE=<dir>): the trace of the execution that was actually
+							// judged, for counter-examples that do not reproduce under replay
+							_ = os.WriteFile(filepath.Join(keepTraceEnv, "mc-trace-"+sanitize(cfg.Name+"-"+sig)+".txt"), []byte(msg+"\n"+fmt.Sprintf("prefix=%+v\ndecisions=%+v\n", it.prefix, out.Decisions)+strings.Join(renderTrace(out), "\n")+"\n"), 0o644)
 						}
 						viol[sig] = Violation{Property: cfg.Property, Scenario: cfg.Name, Sig: sig, Msg: msg, Schedule: full[:last+1], Bound: fmt.Sprintf("PB=%d DB=%d", it.pb, it.db)}
 					}
